@@ -527,6 +527,9 @@ func (e *Engine) checkEvents(s *Sys, class string) *Violation {
 			if g.OldRel >= 0 && g.TargetAtDelivery != g.OldTarget {
 				return e.v(s, class, "removal event %s: target at delivery %v", fmtEv(&g.MEv), g.TargetAtDelivery)
 			}
+			if g.UnlockedAfterNested {
+				return e.v(s, "lock-not-enforced", "inside the removal notification %s, opening and closing nested queries left the world unlocked", fmtEv(&g.MEv))
+			}
 			if g.ChaosEscaped {
 				return e.v(s, "lock-not-enforced", "a structural call inside the removal notification %s was not refused", fmtEv(&g.MEv))
 			}
